@@ -12,7 +12,8 @@ TECHNIQUE = ('stateful fuzzing of interleavings: Hypothesis-generated histories 
              'or unlink the leaf a cursor is parked on; the C extension runs under ASan/UBSan with asserts '
              'enabled (a memory error or failed assert kills the worker and is captured as a crash), the '
              'Python implementation on the normal build; mutations are checked against a reference model and '
-             'the container must be sound at the end')
+             'the container must be sound at the end; '
+             'the container itself or a lazy sequence / iterator over it as operand of its own bulk mutation; sequences from the last key of a leaf to the first key of the next whose start is then deleted away')
 RULE = ('a case is a configuration + history with up to 3 live cursors.  Non-trivial: a size-changing '
         'mutation happened between two steps of one live cursor.  Distinct = distinct case JSON.')
 ASSUMPTIONS = ['a cursor step may return an entry that is or was stored, end the iteration, or raise '
